@@ -21,6 +21,7 @@ import AdaptaVerif.Props.C09
 import AdaptaVerif.Props.C01Static
 import AdaptaVerif.Lemmas.VpscStaticScan
 import Mathlib.Tactic.Linarith
+import Mathlib.Tactic.Ring
 namespace AdaptaVerif.Props.C09Static
 open AdaptaVerif.Model.Vpsc AdaptaVerif.Model.VpscStatic
 open AdaptaVerif.Lemmas.VpscInv AdaptaVerif.Lemmas.VpscStatic AdaptaVerif.Lemmas.VpscStaticMem
@@ -129,6 +130,54 @@ theorem static_removeoverlaps_x_separates (rs : Array Rect) (bx b : Rat) (rank :
   rcases AdaptaVerif.Props.C09.genx_separates rs bx b rank inj evs hv hgood y' hsat i j hi hj hij hmeet with h | h
   · left; have := hnear i; have := hnear j; linarith
   · right; have := hnear i; have := hnear j; linarith
+
+/-- **static_removeoverlaps_y_last_pass**: the last vertical pass of `removeoverlaps` generates its
+    constraints with the borders enlarged by `EXTRA_GAP` (`extra`, 1e-3 in the code).  If the static solver
+    returns normally and `2·extra ≥ n·1e-10` (n ≤ 2·10^7 for the code's value), every pair of rectangles whose
+    x-extents meet is separated vertically by at least half the sum of its NOMINAL heights (border `b`) at the
+    solver's coordinates: no overlap, the solver's tolerance `ZERO_UPPERBOUND` notwithstanding. -/
+theorem static_removeoverlaps_y_last_pass (rs : Array Rect) (bx b extra : Rat) (rank : Nat → Nat)
+    (inj : RankInjective rank) (evs : List Ev) (hv : ValidOrder (yAxis rs bx (b + extra)) rs.size evs)
+    (hgood : GoodAxis (yAxis rs bx (b + extra)) rs.size) (vs : Array (Rat × Rat × Rat))
+    (hextra : (vs.size : Rat) / 10000000000 ≤ 2 * extra)
+    (hrange : ∀ c ∈ generateYConstraints rs bx (b + extra) rank evs, c.l < vs.size ∧ c.r < vs.size)
+    (doSolve : Bool) (s' : SSt) (pos : Array Rat) (ret : Bool)
+    (hrun : (if doSolve then (SSt.init vs (toVpsc (generateYConstraints rs bx (b + extra) rank evs))).solve
+             else (SSt.init vs (toVpsc (generateYConstraints rs bx (b + extra) rank evs))).satisfy) = (s', .ok pos ret))
+    (i j : Nat) (hi : i < rs.size) (hj : j < rs.size) (hij : i ≠ j)
+    (hmeet : ScanMeet (yAxis rs bx (b + extra)) i j) :
+    s'.st.uval i + ((rectAt rs i).height b + (rectAt rs j).height b) / 2 ≤ s'.st.uval j ∨
+    s'.st.uval j + ((rectAt rs i).height b + (rectAt rs j).height b) / 2 ≤ s'.st.uval i := by
+  have hh : ∀ k, (rectAt rs k).height (b + extra) = (rectAt rs k).height b + 2 * extra := by
+    intro k
+    simp only [Rect.height, Rect.getMaxY, Rect.getMinY]
+    ring
+  rcases static_removeoverlaps_y_separates rs bx (b + extra) rank inj evs hv hgood vs hrange doSolve s' pos ret
+    hrun i j hi hj hij hmeet with h | h
+  · left; rw [hh i, hh j] at h; linarith
+  · right; rw [hh i, hh j] at h; linarith
+
+/-- the same for the last horizontal pass -/
+theorem static_removeoverlaps_x_last_pass (rs : Array Rect) (bx b extra : Rat) (rank : Nat → Nat)
+    (inj : RankInjective rank) (evs : List Ev) (hv : ValidOrder (xAxis rs (bx + extra) b) rs.size evs)
+    (hgood : GoodAxis (xAxis rs (bx + extra) b) rs.size) (vs : Array (Rat × Rat × Rat))
+    (hextra : (vs.size : Rat) / 10000000000 ≤ 2 * extra)
+    (hrange : ∀ c ∈ generateXConstraints rs (bx + extra) b rank evs false, c.l < vs.size ∧ c.r < vs.size)
+    (doSolve : Bool) (s' : SSt) (pos : Array Rat) (ret : Bool)
+    (hrun : (if doSolve then (SSt.init vs (toVpsc (generateXConstraints rs (bx + extra) b rank evs false))).solve
+             else (SSt.init vs (toVpsc (generateXConstraints rs (bx + extra) b rank evs false))).satisfy) = (s', .ok pos ret))
+    (i j : Nat) (hi : i < rs.size) (hj : j < rs.size) (hij : i ≠ j)
+    (hmeet : ScanMeet (xAxis rs (bx + extra) b) i j) :
+    s'.st.uval i + ((rectAt rs i).width bx + (rectAt rs j).width bx) / 2 ≤ s'.st.uval j ∨
+    s'.st.uval j + ((rectAt rs i).width bx + (rectAt rs j).width bx) / 2 ≤ s'.st.uval i := by
+  have hh : ∀ k, (rectAt rs k).width (bx + extra) = (rectAt rs k).width bx + 2 * extra := by
+    intro k
+    simp only [Rect.width, Rect.getMaxX, Rect.getMinX]
+    ring
+  rcases static_removeoverlaps_x_separates rs (bx + extra) b rank inj evs hv hgood vs hrange doSolve s' pos ret
+    hrun i j hi hj hij hmeet with h | h
+  · left; rw [hh i, hh j] at h; linarith
+  · right; rw [hh i, hh j] at h; linarith
 
 /-! ### non-vacuity: the two overlapping squares of `Lemmas/ScanlineExample`, one vertical pass -/
 
